@@ -31,9 +31,11 @@ def case_hash(rec):
     return zlib.crc32(repr(rec.get("file")).encode())
 
 
-def prop_concrete(name, tok, seed):
-    pty = PROP_TYPES[(zlib.crc32(("%s/%s/%d" % (name, tok, seed)).encode())) % len(PROP_TYPES)]
-    idx = zlib.crc32(str(tok).encode()) % 50
+def prop_concrete(name, tok, seed, salt=0):
+    """type and value of the property (name, value token): the salt (a hash of the file) walks every property type and
+    many values over the files of a run"""
+    pty = PROP_TYPES[(zlib.crc32(("%s/%s/%d" % (name, tok, seed)).encode()) + salt) % len(PROP_TYPES)]
+    idx = (zlib.crc32(str(tok).encode()) + salt // 13) % 50
     val = enc.value(pty, "prop:" + name, idx, seed, width=idx)
     return pty, val
 
@@ -99,7 +101,7 @@ def to_fd(rec, seed=0, typemap=None, flip_be=None, daqmx=None, manyprops=False):
         for e in s["listed"]:
             props = []
             for (nm, tok) in (e.get("props") or []):
-                pty, val = prop_concrete(nm, tok, seed)
+                pty, val = prop_concrete(nm, tok, seed, h)
                 props.append([nm, pty, val])
             ent = {"p": e["p"], "kind": e["kind"], "props": props}
             if e["kind"] == "full":
@@ -132,7 +134,7 @@ def expected_props(rec, seed):
         d = {}
         if isinstance(m, dict):
             for nm, tok in m.items():
-                pty, val = prop_concrete(nm, tok, seed)
+                pty, val = prop_concrete(nm, tok, seed, case_hash(rec))
                 d[nm] = proj.expected_prop_canon(pty, val)
         out[p] = d
     return out
